@@ -17,13 +17,12 @@ Chr == [A |-> 65, B |-> 66, C |-> 67, D |-> 68, E |-> 69, F |-> 70, G |-> 71, H 
         K |-> 75, L |-> 76, M |-> 77, N |-> 78, O |-> 79, P |-> 80, Q |-> 81, R |-> 82, S |-> 83, T |-> 84,
         U |-> 85, V |-> 86, W |-> 87, X |-> 88, Y |-> 89, Z |-> 90]
 
-(* strncmp order on sequences of codes: negative / zero / positive *)
-RECURSIVE CmpSeq(_, _)
-CmpSeq(a, b) ==
-    IF a = <<>> /\ b = <<>> THEN 0
-    ELSE IF a = <<>> THEN -1
-    ELSE IF b = <<>> THEN 1
-    ELSE IF Head(a) < Head(b) THEN -1
-    ELSE IF Head(a) > Head(b) THEN 1
-    ELSE CmpSeq(Tail(a), Tail(b))
+(* strncmp(a, b, 256) on sequences of codes: negative / zero / positive (only the first 256 bytes are looked at) *)
+CmpSeq(a0, b0) ==
+    LET a == IF Len(a0) > 256 THEN SubSeq(a0, 1, 256) ELSE a0
+        b == IF Len(b0) > 256 THEN SubSeq(b0, 1, 256) ELSE b0
+        n == IF Len(a) < Len(b) THEN Len(a) ELSE Len(b)
+        diff == SelectSeq([i \in 1..n |-> i], LAMBDA i : a[i] # b[i])
+    IN IF diff # <<>> THEN (IF a[diff[1]] < b[diff[1]] THEN -1 ELSE 1)
+       ELSE IF Len(a) < Len(b) THEN -1 ELSE IF Len(a) > Len(b) THEN 1 ELSE 0
 =============================================================================
